@@ -155,6 +155,151 @@ fn non_ascii_stream(out: &mut Out, thorough: bool) {
     }
 }
 
+/// Byte-level transaction data offered to `Interpreter::from_txdata` (and, when accepted, iterated
+/// to the end): every output type x inner scripts (redeem script / witness script / tapscript) of
+/// every short length, witness-program look-alikes around the 22- and 34-byte boundaries, and
+/// scriptSig / witness / control-block shapes around each length the classifier tests.
+fn from_txdata_stream(out: &mut Out, thorough: bool) {
+    use miniscript::bitcoin::hashes::{hash160, sha256, Hash};
+    use miniscript::bitcoin::script::{Builder, PushBytesBuf};
+    use miniscript::bitcoin::{absolute, ScriptBuf, Sequence, Witness};
+    use miniscript::interpreter::Interpreter;
+    let push = |b: &[u8]| -> ScriptBuf { Builder::new().push_slice(PushBytesBuf::try_from(b.to_vec()).unwrap()).into_script() };
+    let alpha: &[u8] = if thorough { &[0x00, 0x01, 0x02, 0x14, 0x20, 0x21, 0x4c, 0x50, 0x51, 0x60, 0x75, 0x87, 0xa9, 0xac, 0xff] } else { &[0x00, 0x01, 0x14, 0x20, 0x51, 0xac, 0xff] };
+    // inner scripts
+    let mut inners: Vec<Vec<u8>> = vec![vec![]];
+    for a in alpha { inners.push(vec![*a]); }
+    for a in alpha { for b in alpha { inners.push(vec![*a, *b]); } }
+    if thorough { for a in alpha { for b in alpha { for c in [0x00u8, 0x14, 0x20, 0x51] { inners.push(vec![*a, *b, c]); } } } }
+    let key33 = ast::full_key(1).to_bytes();
+    for ver in [0x00u8, 0x51, 0x60] {
+        for (plen, body) in [(0x14u8, 20usize), (0x20, 32), (0x21, 33), (0x02, 2), (0x28, 40)] {
+            for delta in [-2i32, -1, 0, 1, 2] {
+                let n = (body as i32 + delta).max(0) as usize;
+                let mut v = vec![ver, plen]; v.extend(std::iter::repeat(0x11u8).take(n)); inners.push(v);
+            }
+        }
+    }
+    // well-formed miniscripts as inner scripts
+    let mut pkcs = vec![0x21]; pkcs.extend(&key33); pkcs.push(0xac);
+    inners.push(pkcs.clone());
+    inners.push(vec![0x51]);
+    inners.sort(); inners.dedup();
+    let h160 = |b: &[u8]| hash160::Hash::hash(b).to_byte_array().to_vec();
+    let s256 = |b: &[u8]| sha256::Hash::hash(b).to_byte_array().to_vec();
+    let mut n = 0u64;
+    let mut probe = |out: &mut Out, tag: &str, spk: &ScriptBuf, ss: &ScriptBuf, wit: &Witness| {
+        let r = std::panic::catch_unwind(std::panic::AssertUnwindSafe(|| {
+            match Interpreter::from_txdata(spk, ss, wit, Sequence::from_consensus(10), absolute::LockTime::from_consensus(100)) {
+                Ok(i) => { let mut k = 0; for x in i.iter_assume_sigs() { k += 1; if x.is_err() || k > 10_000 { break; } } let _ = i.inferred_descriptor_string(); let _ = i.is_legacy(); true }
+                Err(_) => false,
+            }
+        }));
+        let at = if r.is_err() { LAST_PANIC.lock().map(|s| s.clone()).unwrap_or_default() } else { "-".into() };
+        n += 1;
+        match r {
+            Err(_) => out.line(&format!("J nopanic from_txdata {} spk={} ss={} wit={} at={} PANIC", tag, ast::hex(spk.as_bytes()), ast::hex(ss.as_bytes()),
+                wit.iter().map(|e| if e.is_empty() { "-".to_string() } else { ast::hex(e) }).collect::<Vec<_>>().join(","), at), "ok"),
+            Ok(acc) => out.count(&format!("from_txdata {} {}", tag, if acc { "accepted" } else { "refused" })),
+        }
+    };
+    let empty = ScriptBuf::new();
+    let w = |items: Vec<Vec<u8>>| Witness::from_slice(&items);
+    for inner in &inners {
+        // p2sh: canonical scriptSig, with stack items below, with trailing / leading garbage
+        let mut spk = vec![0xa9, 0x14]; spk.extend(h160(inner)); spk.push(0x87);
+        let spk = ScriptBuf::from_bytes(spk);
+        let ss0 = if inner.is_empty() { ScriptBuf::from_bytes(vec![0x00]) } else { push(inner) };
+        probe(out, "p2sh", &spk, &ss0, &Witness::new());
+        let mut ss1 = vec![0x00]; ss1.extend(ss0.as_bytes()); probe(out, "p2sh+item", &spk, &ScriptBuf::from_bytes(ss1), &Witness::new());
+        let mut ss2 = vec![0x01, 0x01, 0x21]; ss2.extend(&key33); ss2.extend(ss0.as_bytes()); probe(out, "p2sh+items", &spk, &ScriptBuf::from_bytes(ss2), &Witness::new());
+        probe(out, "p2sh+wit", &spk, &ss0, &w(vec![vec![1], inner.clone()]));
+        probe(out, "p2sh+wit2", &spk, &ss0, &w(vec![vec![0x30; 71], key33.clone()]));
+        probe(out, "p2sh-empty-ss", &spk, &empty, &Witness::new());
+        // p2wsh / p2sh-p2wsh
+        let mut wspk = vec![0x00, 0x20]; wspk.extend(s256(inner));
+        let wspk = ScriptBuf::from_bytes(wspk);
+        for wit in [w(vec![inner.clone()]), w(vec![vec![], inner.clone()]), w(vec![vec![1], vec![], inner.clone()]), Witness::new(), w(vec![vec![]])] {
+            probe(out, "p2wsh", &wspk, &empty, &wit);
+            let mut sspk = vec![0xa9, 0x14]; sspk.extend(h160(wspk.as_bytes())); sspk.push(0x87);
+            probe(out, "p2sh-p2wsh", &ScriptBuf::from_bytes(sspk), &push(wspk.as_bytes()), &wit);
+        }
+        probe(out, "p2wsh+ss", &wspk, &ss0, &w(vec![inner.clone()]));
+        // bare: the inner script as scriptPubKey
+        probe(out, "bare", &ScriptBuf::from_bytes(inner.clone()), &empty, &Witness::new());
+        probe(out, "bare+ss", &ScriptBuf::from_bytes(inner.clone()), &ScriptBuf::from_bytes(vec![0x00, 0x51]), &Witness::new());
+        probe(out, "bare+wit", &ScriptBuf::from_bytes(inner.clone()), &empty, &w(vec![vec![1]]));
+        // p2tr script path: control blocks of every length the parser distinguishes
+        let xo = ast::xonly_key(201).serialize().to_vec();
+        let mut tspk = vec![0x51, 0x20]; tspk.extend(&xo);
+        let tspk = ScriptBuf::from_bytes(tspk);
+        // a control block that really commits to the inner script (single leaf, and a two-leaf tree)
+        {
+            use miniscript::bitcoin::taproot::{LeafVersion, TaprootBuilder};
+            let secp = miniscript::bitcoin::secp256k1::Secp256k1::verification_only();
+            let ik = ast::xonly_key(201);
+            let leaf = ScriptBuf::from_bytes(inner.clone());
+            for two in [false, true] {
+                let b = if two { TaprootBuilder::new().add_leaf(1, leaf.clone()).and_then(|b| b.add_leaf(1, ScriptBuf::from_bytes(vec![0x51]))) } else { TaprootBuilder::new().add_leaf(0, leaf.clone()) };
+                if let Ok(Ok(info)) = b.map(|b| b.finalize(&secp, ik)) {
+                    if let Some(cb) = info.control_block(&(leaf.clone(), LeafVersion::TapScript)) {
+                        let mut vspk = vec![0x51, 0x20]; vspk.extend(info.output_key().to_x_only_public_key().serialize());
+                        let vspk = ScriptBuf::from_bytes(vspk);
+                        let cbb = cb.serialize();
+                        probe(out, "p2tr-valid", &vspk, &empty, &w(vec![inner.clone(), cbb.clone()]));
+                        probe(out, "p2tr-valid+item", &vspk, &empty, &w(vec![vec![], inner.clone(), cbb.clone()]));
+                        probe(out, "p2tr-valid+items", &vspk, &empty, &w(vec![vec![0x30; 64], vec![1], inner.clone(), cbb.clone()]));
+                        probe(out, "p2tr-valid+annex", &vspk, &empty, &w(vec![inner.clone(), cbb.clone(), vec![0x50, 0x00]]));
+                        probe(out, "p2tr-valid+ss", &vspk, &ScriptBuf::from_bytes(vec![0x51]), &w(vec![inner.clone(), cbb]));
+                    }
+                }
+            }
+        }
+        for clen in [0usize, 1, 32, 33, 34, 64, 65, 66, 97] {
+            let mut cb = vec![0xc0u8]; cb.extend(xo.iter().cycle().take(clen.saturating_sub(1))); cb.truncate(clen);
+            probe(out, "p2tr", &tspk, &empty, &w(vec![inner.clone(), cb.clone()]));
+            probe(out, "p2tr+item", &tspk, &empty, &w(vec![vec![], inner.clone(), cb.clone()]));
+            probe(out, "p2tr+annex", &tspk, &empty, &w(vec![inner.clone(), cb, vec![0x50, 0x00]]));
+        }
+    }
+    // key-only outputs: witness / scriptSig shapes
+    let k20 = h160(&key33);
+    let mut wpkh = vec![0x00, 0x14]; wpkh.extend(&k20);
+    let wpkh = ScriptBuf::from_bytes(wpkh);
+    let mut pkh = vec![0x76, 0xa9, 0x14]; pkh.extend(&k20); pkh.extend([0x88, 0xac]);
+    let pkh = ScriptBuf::from_bytes(pkh);
+    let mut shwpkh = vec![0xa9, 0x14]; shwpkh.extend(h160(wpkh.as_bytes())); shwpkh.push(0x87);
+    let shwpkh = ScriptBuf::from_bytes(shwpkh);
+    let xo = ast::xonly_key(201).serialize().to_vec();
+    let mut tspk = vec![0x51, 0x20]; tspk.extend(&xo);
+    let tspk = ScriptBuf::from_bytes(tspk);
+    let elems: Vec<Vec<u8>> = vec![vec![], vec![0], vec![1], key33.clone(), key33[..32].to_vec(), ast::full_key(101).to_bytes(), vec![0x30; 71], vec![0x30; 64], vec![0x30; 65], vec![0x50], vec![0x50, 1]];
+    let mut wits: Vec<Vec<Vec<u8>>> = vec![vec![]];
+    for a in &elems { wits.push(vec![a.clone()]); for b in &elems { wits.push(vec![a.clone(), b.clone()]); } }
+    for a in &elems { wits.push(vec![a.clone(), key33.clone(), vec![]]); }
+    for wi in &wits {
+        let wit = w(wi.clone());
+        probe(out, "p2wpkh", &wpkh, &empty, &wit);
+        probe(out, "p2sh-p2wpkh", &shwpkh, &push(wpkh.as_bytes()), &wit);
+        probe(out, "p2tr-key", &tspk, &empty, &wit);
+        // the same items as scriptSig pushes of p2pkh / p2pk
+        let mut b = Builder::new();
+        for e in wi { b = b.push_slice(PushBytesBuf::try_from(e.clone()).unwrap()); }
+        let ss = b.into_script();
+        probe(out, "p2pkh", &pkh, &ss, &Witness::new());
+        probe(out, "p2pkh+wit", &pkh, &ss, &wit);
+        let mut pk = vec![0x21]; pk.extend(&key33); pk.push(0xac);
+        probe(out, "p2pk", &ScriptBuf::from_bytes(pk), &ss, &Witness::new());
+        probe(out, "p2wpkh+ss", &wpkh, &ss, &wit);
+    }
+    // scriptSigs that are not push-only / truncated pushes
+    for ss in [vec![0x4c], vec![0x4c, 0x05, 0x01], vec![0x4d, 0x01], vec![0x4e, 0x01, 0x00], vec![0x01], vec![0x02, 0x01], vec![0xac], vec![0x6a], vec![0x00, 0xac], vec![0x4f], vec![0x60], vec![0x51, 0x51]] {
+        let ssb = ScriptBuf::from_bytes(ss);
+        for spk in [&pkh, &shwpkh, &wpkh, &tspk] { probe(out, "odd-scriptsig", spk, &ssb, &Witness::new()); }
+    }
+    out.note("from_txdata_cases", n.to_string());
+}
+
 fn bx(n: Node) -> Box<Node> { Box::new(n) }
 
 pub fn run(out: &mut Out, thorough: bool, seed: u64) {
@@ -199,6 +344,7 @@ pub fn run(out: &mut Out, thorough: bool, seed: u64) {
     psbt_tap_rawpkh(out, true);
     psbt_tap_rawpkh(out, false);
     non_ascii_stream(out, thorough);
+    from_txdata_stream(out, thorough);
     // 3. panic sweep over the other modules
     out.sweep = true;
     crate::c04::run(out, thorough, seed);
@@ -219,6 +365,6 @@ pub fn run(out: &mut Out, thorough: bool, seed: u64) {
     out.sweep = false;
     let swept = out.swept;
     out.note("swept_calls", swept.to_string());
-    out.note("domain", "expression parser: own stream; all other entry points: panic sweep over the C04 (script decoder, malformed bytes), C10 (every FromStr on mutated strings), C13 (interpreter on mutated spends), C14 (PSBT histories + adversarial PSBTs), C17 (planner, adversarial Assets), C12 (constructors/validate), C18 (policy code), C08 (compiler) streams; satisfier assert corpus".into());
+    out.note("domain", "expression parser: own stream; all other entry points: panic sweep over the C04 (script decoder, malformed bytes), C10 (every FromStr on mutated strings), C13 (interpreter on mutated spends), C14 (PSBT histories + adversarial PSBTs), C17 (planner, adversarial Assets), C12 (constructors/validate), C18 (policy code), C08 (compiler) streams; satisfier assert corpus; non-ASCII text at every position of 15 base strings to 10 FromStr types; byte-level Interpreter::from_txdata stream (p2sh / p2wsh / sh-wsh / bare / p2tr with committing and non-committing control blocks of 9 lengths / p2wpkh / sh-wpkh / p2pkh / p2pk x inner scripts of every length 0..2 over an opcode alphabet, witness-program look-alikes of 3 versions x 5 program lengths x body length -2..+2, x scriptSig / witness shapes incl. non-push and truncated pushes; accepted inputs are iterated to the end)".into());
     std::panic::set_hook(prev);
 }
